@@ -569,6 +569,37 @@ def skeleton(check: Check, repo: Repo, rules: dict) -> None:
         check.oblige("SYNTAX", f"{SCANNER}::{q}", "a doc comment may end at the end of the text" if ok else "a doc comment must be followed by a newline", ok, sample=not ok,
                      finding=Finding("SYNTAX", f"{SCANNER}::{q}", "a doc comment must be followed by a newline", "inner_doc = @{ (!newline ~ ANY)* } may end at EOI, but scan_until(RE_NEWLINE) fails there and the comment text is re-scanned as a rule", {}))
         check.count("syntax_facts")
+    # grammar_doc / line_doc = ${ marker ~ space? ~ inner_doc }: the optional space is not part of the doc text
+    for q in ("Scanner.scan_grammar_doc_inner", "Scanner.scan_rule_doc_inner"):
+        fn = repo.func(SCANNER, q)
+        events: list[tuple[int, str]] = []
+        for n in ast.walk(fn):
+            if isinstance(n, ast.Call) and ast.unparse(n.func) == "self.next":
+                events.append((n.lineno, "consume"))
+            if isinstance(n, ast.AugAssign) and ast.unparse(n.target) == "self.pos":
+                events.append((n.lineno, "consume"))
+            if isinstance(n, ast.Assign) and ast.unparse(n.targets[0]) == "self.start" and ast.unparse(n.value) == "self.pos":
+                events.append((n.lineno, "reset"))
+            if isinstance(n, ast.Call) and ast.unparse(n.func) == "self.skip":
+                events.append((n.lineno, "reset"))
+            if isinstance(n, ast.Call) and ast.unparse(n.func) in ("self.scan_until", "self.emit"):
+                events.append((n.lineno, "take"))
+            if isinstance(n, ast.Subscript) and ast.unparse(n.value) == "self.grammar" and isinstance(n.slice, ast.Slice) and n.slice.lower is not None and ast.unparse(n.slice.lower) == "self.start":
+                events.append((n.lineno, "take"))
+        events.sort()
+        pending = False
+        bad = False
+        for _ln, ev in events:
+            if ev == "consume":
+                pending = True
+            elif ev == "reset":
+                pending = False
+            elif ev == "take" and pending:
+                bad = True
+        sig = "the optional space after the doc marker becomes part of the documentation text"
+        check.oblige("SYNTAX", f"{SCANNER}::{q}", "the optional space after the marker is excluded from the doc text" if not bad else sig, not bad,
+                     finding=Finding("SYNTAX", f"{SCANNER}::{q}", sig, "`/// hello` denotes the documentation \"hello\" (line_doc = ${ \"///\" ~ space? ~ inner_doc }); the scanner consumes the space but does not move `start`, so the text is \" hello\"", {}))
+        check.count("syntax_facts")
     # expression = choice_operator? ~ term ~ (infix_operator ~ term)*
     ae = ast.unparse(repo.func(SCANNER, "Scanner.accept_expression"))
     ok = ae.count("self.accept_term()") == 3 and "CHOICE_OP" in ae and "SEQUENCE_OP" in ae and "while True" in ae
